@@ -446,6 +446,13 @@ class TransferFrame:
             frame.header.frame_len + 1 != frame_properties.fixed_len
         ):
             raise UslpInvalidRawPacketOrFrameLen
+        # The complete frame has to be present, including a trailing OCF and FECF
+        if header_type == HeaderType.TRUNCATED:
+            expected_frame_len = frame_properties.truncated_frame_len
+        else:
+            expected_frame_len = frame.header.frame_len + 1
+        if len(raw_frame) < expected_frame_len:
+            raise UslpInvalidRawPacketOrFrameLen
         exact_tfdf_len = cls.__get_tfdf_len(
             frame_type=frame_type,
             header_type=header_type,
